@@ -152,6 +152,104 @@ del e2
 '''
 
 
+# ---- random lambdas with captures under random binder structure (seeded) -------------------------
+class RandCaptures:
+    """Number-valued lambdas over one DATA object that mix captured names (module globals,
+    nested class attributes, math attributes) with binders — the parameter, nested lambda
+    parameters, comprehension targets, called-lambda parameters — whose names are drawn from a
+    pool that CONTAINS the global names j, q, e2 (shadowing)."""
+
+    GLOBALS = ["G_INT", "G_NEG", "G_FLOAT", "K.C", "K.Inner.D", "math.pi", "j", "q"]
+    BINDERS = ["e", "j", "q", "e2", "v1", "v2"]
+
+    def __init__(self, rng):
+        self.rng = rng
+
+    def num(self, objs, seqs, nums, d):
+        """objs: bound names of record kind (x, y); seqs: [(name.field, elem fields)]"""
+        r = self.rng
+        bound = set(objs) | set(nums) | {n for n, _ in seqs}
+        caps = [g for g in self.GLOBALS if g.split(".")[0] not in bound]
+        opts = [lambda: r.choice(caps)] * 3 + [lambda: str(r.randint(0, 3))]
+        for o in objs:
+            opts += [lambda o=o: f"{o}.{r.choice(['x', 'y'])}"] * 2
+        for n in nums:
+            opts += [lambda n=n: n] * 2
+        for n, f in seqs:
+            opts += [lambda n=n, f=f: f"{n}.{r.choice(f)}"] * 3
+        if d > 0:
+            opts += [lambda: f"({self.num(objs, seqs, nums, d - 1)} {r.choice(['+', '-', '*'])} "
+                             f"{self.num(objs, seqs, nums, d - 1)})",
+                     lambda: f"({self.num(objs, seqs, nums, d - 1)} if {self.num(objs, seqs, nums, d - 1)} > "
+                             f"{self.num(objs, seqs, nums, d - 1)} else {self.num(objs, seqs, nums, d - 1)})",
+                     lambda: f"({self.num(objs, seqs, nums, d - 1)}, {self.num(objs, seqs, nums, d - 1)})[{r.randint(0, 1)}]",
+                     lambda: self.called(objs, seqs, nums, d - 1),
+                     lambda: self.count(objs, seqs, nums, d - 1)]
+        return r.choice(opts)()
+
+    def called(self, objs, seqs, nums, d):
+        p = self.rng.choice(self.BINDERS)
+        inner_objs = [o for o in objs if o != p]
+        inner_seqs = [(n, f) for n, f in seqs if n != p]
+        return (f"(lambda {p}: {self.num(inner_objs, inner_seqs, [n for n in nums if n != p] + [p], d)})"
+                f"({self.num(objs, seqs, nums, d)})")
+
+    def sources(self, objs, seqs):
+        out = [(f"{o}.jets", ["pt", "eta"]) for o in objs]
+        out += [(f"{n}.tracks", ["pt"]) for n, f in seqs if "eta" in f]
+        return out
+
+    def count(self, objs, seqs, nums, d):
+        srcs = self.sources(objs, seqs)
+        if not srcs:
+            return None or "0"
+        src, f = self.rng.choice(srcs)
+        w = self.rng.choice(self.BINDERS)
+        o2 = [o for o in objs if o != w]
+        s2 = [(n, ff) for n, ff in seqs if n != w] + [(w, f)]
+        n2 = [n for n in nums if n != w]
+        return (f"{src}.Where(lambda {w}: {self.num(o2, s2, n2, d)} > {self.num(o2, s2, n2, d)})"
+                f".Count()")
+
+    def seq(self, objs, seqs, nums, d):
+        srcs = self.sources(objs, seqs)
+        src, f = self.rng.choice(srcs)
+        w = self.rng.choice(self.BINDERS)
+        o2 = [o for o in objs if o != w]
+        s2 = [(n, ff) for n, ff in seqs if n != w] + [(w, f)]
+        n2 = [n for n in nums if n != w]
+        body = self.num(o2, s2, n2, d)
+        if self.rng.random() < 0.4:
+            cond = f" if {self.num(o2, s2, n2, 0)} > {self.num(o2, s2, n2, 0)}" if self.rng.random() < 0.5 else ""
+            return f"[{body} for {w} in {src}{cond}]"
+        return f"{src}.Select(lambda {w}: {body})"
+
+    def lam(self):
+        r = self.rng
+        v = r.choice(["e", "j", "q", "e2", "ev"])
+        d = r.randint(1, 3)
+        if r.random() < 0.5:
+            return f"lambda {v}: {self.num([v], [], [], d)}"
+        return f"lambda {v}: {self.seq([v], [], [], d)}"
+
+
+def random_capture_cases(rng, n):
+    g = RandCaptures(rng)
+    out, seen = [], set()
+    for _ in range(n * 4):
+        try:
+            l = g.lam()
+        except (RecursionError, IndexError):
+            continue
+        if l in seen or len(l) > 320 or not any(c.split(".")[0] in l for c in g.GLOBALS):
+            continue
+        seen.add(l)
+        out.append(l)
+        if len(out) >= n:
+            break
+    return out
+
+
 def run(t):
     t.rules.append("lambdas compiled from a generated source module whose free names resolve to "
                    "module globals of every listed value type, closure cells (two factories, two "
@@ -162,6 +260,9 @@ def run(t):
                    "captured name and a binder; distinct by lambda text")
     ops = ["Select", "SelectMany", "Where"]
     parts = [srcgen.PRELUDE, HEADER]
+    rnd = random_capture_cases(t.rng, 60 if t.tier == "quick" else 2500)
+    t.bounds.append(f"{len(rnd)} random capture lambdas (seeded)")
+    CASES = list(globals()["CASES"]) + [(l, "ok") for l in rnd]
     for i, (lam, kind) in enumerate(CASES):
         if kind == "skip":
             continue
